@@ -21,6 +21,11 @@ CHECKS = {
     text="The three statistics expressions are re-read from get_code on every run as terms; the kernel checks, for every program text that is non-empty, has '\\n' as its only line boundary and no trailing newline (and for the empty program), that they evaluate to the line count, the size with two-byte line ends and the size of the used-register list (induction over the text against a model of str.splitlines). Every compile done by the check (repository programs, corpus, generated programs x option vectors) is recounted independently, num_registers against the allocation map exported by the hook.",
     note="Trusted: Coq kernel; PyStr.v model of splitlines/len; translator stats.py; the hook's export of the register map. That the used-register list equals the image of the allocation is checked per compile (and proved for the allocation model in C04), not proved about the Python code.",
     design="4 C17"),
+ "C15": dict(
+    category="proof", technique="Coq proof (induction over lines/tags) about a model of the scanner + translator tie + model/implementation correspondence",
+    text="Kernel-checked theorems for every source text and every caller option vector: the scanner equals 'collect the directives of directive lines in order and apply them' (scan_eq_spec), last directive wins, unknown names are ignored, unnamed options keep the caller's value, the option set never changes, lines whose first non-blank character is not '#' carry no directive, '-' and '_' are alike. The loop's shape and literals and the field test are re-read from compiler.py on every run (fail-closed translator) and proved equal to the model's; the model is run against compile_code on 1500+ generated sources (mixed separators, Unicode spaces, attribute-like names) and the OBSERVE equality is checked on real compiles.",
+    note="Trusted: Coq kernel; PyStr.v (Python string methods; exercised against CPython by the correspondence run); translator pragma.py.",
+    design="4 C15"),
 }
 
 NOT_YET = {}
